@@ -25,7 +25,7 @@ RULE = ('raw property graphs (1-12 nodes, random edges, 0-6 properties per node/
         'and non-trivial if the model has >=1 edge and >=1 property value with a character outside [A-Za-z0-9]')
 REQUIRED_ALL = ['scenario:interleaved', 'scenario:stitched', 'rt:GRAPHML', 'rt:JSON_NODELINK', 'ep:from_string_newid', 'ep:from_string_noid', 'ep:from_string_direct',
             'ep:from_file_newid', 'ep:from_file_direct', 'ep:topology_load_string', 'ep:topology_load_file',
-            'ep:topology_load_string_newid', 'store:shared', 'store:disjoint', 'markup-checked', 'second-generation',
+            'ep:topology_load_string_newid', 'ep:topology_load_twice', 'store:shared', 'store:disjoint', 'markup-checked', 'second-generation',
             'src:raw-api', 'src:raw-storage', 'src:repo-file', 'src:topology', 'validated-copy']
 ASSUMPTIONS = ['values are XML-1.0-legal text; carriage return (normalised by every conforming XML parser) and C0 '
                'controls other than tab/newline are outside the claimed domain',
@@ -33,7 +33,7 @@ ASSUMPTIONS = ['values are XML-1.0-legal text; carriage return (normalised by ev
                'Neo4j export/import itself is not reachable without a server; Cytoscape export has no importer']
 
 ENTRY_POINTS = ['from_string_newid', 'from_string_noid', 'from_string_direct', 'from_file_newid', 'from_file_direct',
-                'topology_load_string', 'topology_load_file', 'topology_load_string_newid']
+                'topology_load_string', 'topology_load_file', 'topology_load_string_newid', 'topology_load_twice']
 
 _counter = [0]
 
@@ -156,6 +156,12 @@ def do_import(env, store, ep, text, src_gid):
             return t.graph_model, src_gid
         if ep == 'topology_load_file':
             t.load(file_name=path)
+            return t.graph_model, src_gid
+        if ep == 'topology_load_twice':
+            # the same text loaded twice into ONE topology object (a user reloading a slice in place): the second load replaces
+            # the model the object holds under the very id it is importing
+            t.load(graph_string=text)
+            t.load(graph_string=text)
             return t.graph_model, src_gid
         if ep == 'topology_load_string_newid':
             gid = fresh_id('imp')
